@@ -37,8 +37,12 @@ theorem C19_div_guard {V : Type} (ops : Ops V) (l r : MTree) (a b : V)
 theorem C19_full_paren_parse (t : MTree) (h : WFTree t) : parse (fullParen t) = some t :=
   parse_fullParen t h
 
-/-- hence on fully parenthesised input the immediate evaluation is ordinary arithmetic on the tree the parentheses
-    spell out, and so is the deferred one unless a division by zero occurs -/
+/-- a corollary of `C19_full_paren_parse` with little content of its own: evaluating the parse of the fully parenthesised
+    text is evaluating the tree (immediate), and the deferred evaluation agrees unless a division by zero occurs.  "Ordinary
+    Python arithmetic" is represented by the same evaluator `evalI` on the tree — there is no separate model of Python's
+    precedence (`**` right-associative, unary minus below `**`) to compare with; that comparison is made by the oracle
+    (`harness/w_madx.py` evaluates the mirrored term with Python itself).  Precedence / associativity of UNparenthesised
+    input is checked by examples (`#guard`) and by the correspondence with lark's tree, not by a theorem. -/
 theorem C19_full_paren_value {V : Type} (ops : Ops V) (hd : DivOnly ops) (t : MTree) (h : WFTree t) :
     (parse (fullParen t)).map (evalI ops false) = some (evalI ops false t) ∧
     (evalI ops false t ≠ .error .zeroDiv →
